@@ -23,6 +23,8 @@ PROTO_RULE = ("each run draws protocol, n, t, the Byzantine set (<= t, anywhere)
 ENGINE_INFO = {
     "dkgsim": "n real DKG instances over a simulated transport with round timers, Byzantine mutator/injector (proto mode) and arbitrary call histories (chaos mode)",
     "thrnet": "threshold-signing round over a lossy/duplicating/reordering network with Byzantine signers; collectors use the stateful object or the stateless reconstruction; sequential reference model checked call by call",
+    "thrconc": "2-4 tasks on one shared threshold-signature object under the seeded statement-level scheduler simrt, porcupine linearizability check, race detector",
+    "roconc": "2-4 tasks sharing keys, signatures and hashers, read-only operations only, under simrt with the race detector",
     "prgcrash": "consumer process + simulated checkpoint disk with crash/restart and write faults",
 }
 
@@ -93,6 +95,37 @@ CHECKS = {
         "real": DKG_REAL, "stub": ["scheduler of API calls", "reference state machine (40 lines)", "twin execution"],
         "assumptions": ["restarting an instance after an accepted End is outside the quantifier and never generated", "Start with an invalid seed is not modelled (only C09 generates it)"],
         "expected_probes": ["twin_runs"],
+    },
+    "C18": {
+        "batches": [
+            {"engine": "thrconc", "mode": "", "worker": "conc", "runs": {"quick": 60000, "thorough": 1500000}, "budget": {"quick": 75, "thorough": 1500}},
+        ],
+        "rule": ("each run draws n in 3..6, t, inspector or participant, 2-4 tasks with 2-6 operations each (<= 24 per history) from {TrustedAdd, VerifyAndAdd, HasShare, EnoughShares, VerifyShare, "
+                 "VerifyThresholdSignature, SignShare, ThresholdSignature} with genuine shares, another signer's share, non-G1 / bad-header / negated 48-byte shares, duplicates and indices -1 and n; "
+                 "the interleaving is chosen by the seed at statement granularity of the instrumented library (random bursts or PCT-style priorities with 1-3 change points), locks are simulated. "
+                 "Non-trivial = more context switches than tasks; distinct = distinct hash of (configuration, (task, source line) switch list)"),
+        "time_unit": "scheduler steps (yield points passed), context switches, operations",
+        "real": ["blsThresholdSignatureInspector/Participant and everything below it: Go code of the scratch copy with a yield inserted before every statement and sync.RWMutex replaced by the simulated lock in front of a real one; C layer unmodified (a cgo call is one atomic step)"],
+        "stub": ["goroutine scheduler (simrt: one task runs at a time, chosen by the seed)", "lock grant order (model lock, writer preference as sync.RWMutex)", "sequential reference model sim/thrmodel used by porcupine"],
+        "assumptions": ["races between two C functions are invisible to the Go race detector", "porcupine results 'Unknown' (30 s timeout) are counted as inconclusive, never reported",
+                        "validity of shares and the group signature are computed sequentially during set-up"],
+        "expected_probes": ["histories_linearizable", "lock_contended", "switch_inside_critical_section"],
+    },
+    "C19": {
+        "batches": [
+            {"engine": "roconc", "mode": "", "worker": "conc", "runs": {"quick": 24000, "thorough": 600000}, "budget": {"quick": 75, "thorough": 1500}},
+        ],
+        "rule": ("each run draws fresh keys/messages, enables a random subset of the operation kinds (swarm) {KMAC128 ComputeHash on one shared instance, BLS hasher ComputeHash, BLS Sign, Verify (valid and invalid), "
+                 "BLSVerifyPOP (package-level hasher), SPOCKVerify, VerifyBLSSignatureOneMessage, VerifyBLSSignatureManyMessages, BatchVerifyBLSSignaturesOneMessage, ECDSA Sign and Verify on P-256 and secp256k1 with per-task hashers}, "
+                 "2-4 tasks with 1-4 operations each, and the interleaving at statement granularity of the instrumented library. Non-trivial = more context switches than tasks; "
+                 "distinct = distinct hash of (enabled operations, (task, source line) switch list)"),
+        "time_unit": "scheduler steps (yield points passed), context switches, operations",
+        "real": ["hash/kmac.go, bls.go, bls_multisig.go, spock.go, ecdsa.go and everything below: Go code of the scratch copy with a yield inserted before every statement; C layer, golang.org/x/crypto/sha3, crypto/ecdsa and btcec unmodified (atomic steps)"],
+        "stub": ["goroutine scheduler (simrt)"],
+        "assumptions": ["PrivateKey.PublicKey() (lazily cached, not in the property's list) is called once during set-up, never concurrently",
+                        "races confined to C code or to uninstrumented dependencies are only visible through changed results or changed argument bytes",
+                        "ECDSA signatures are randomised: checked by verification, not by equality"],
+        "expected_probes": ["runs_all_results_equal"],
     },
     "C14": {
         "batches": [
